@@ -54,7 +54,7 @@ def gen_files(rng, name, tier):
             spec["foff"] = -10.0 * 16 / nchans  # keep the band (hence the sweep) the same width
         return spec
     nbits = rng.choice([1, 2, 4, 8, 8, 32, 32])
-    chans = [c for c in (1, 2, 4, 6, 8, 12, 16) if (c * nbits) % 8 == 0]
+    chans = [c for c in (1, 2, 4, 6, 7, 8, 12, 14, 16) if (c * nbits) % 8 == 0]
     if T.needs_disp_band(name):
         chans = [c for c in chans if c > 1]  # a 1-channel band has no dispersion sweep (delays squeeze to 0-d)
     nchans = rng.choice(chans)
@@ -63,6 +63,11 @@ def gen_files(rng, name, tier):
     counts = [rng.choice([1, 2, rng.randint(1, mx // nfiles), rng.randint(1, mx // nfiles)]) for _ in range(nfiles)]
     spec = {"nbits": nbits, "nchans": nchans, "nsamps": counts, "pad": [rng.randint(0, 5) for _ in counts],
             "vseed": rng.randrange(1 << 16), "mode": T.data_mode(name, nbits)}
+    if name == "downsample" and rng.random() < 0.3:
+        spec["mode"] = "flat"  # exact-integer block means: the reduced value is then fixed by ANY rounding rule
+        if rng.random() < 0.5:
+            spec["nsamps"] = [rng.randint(49, 120)]
+            spec["pad"] = [0]
     if T.needs_disp_band(name):
         spec.update(T.DISP_BAND)
     return spec
@@ -270,6 +275,8 @@ def execute(sc, ctx) -> None:
             # probes from the arguments
             g_eff = gulp
             skip = 0
+            if name == "downsample" and spec["mode"] == "flat":
+                ctx.probe("decimation:exact-integer-means")
             if name == "downsample":
                 g_eff = int(np.ceil(gulp / params["tfactor"]) * params["tfactor"])
                 if g_eff != gulp:
